@@ -25,6 +25,7 @@ RULE = ("trees: every shape up to depth 2 / fan-out 2 over {file, empty file, em
 RULE += ("  " + 'Also: the same relative name denoting a file in one directory and a directory in another: stat / is_file / is_dir / exists before and after change_directory, then download or remove by the relative name.')
 RULE += ("  " + 'Also: after a refused or abandoned recursive listing, a refused remove, and an upload repeated from another working directory, the next operations behave as on a fresh client.')
 RULE += ("  " + 'Also (round 7): download over a stale local copy of the same layout; the root named absolutely, listed (plain, recursive) and stat-ed from other working directories.')
+RULE += ("  " + 'Also (round 8): one Client object, two sessions on two servers: upload and recursive listing of the second are complete.')
 ASSUMPTIONS = ["documented placement rule: destination/source.name/... by default, destination/... with write_into",
                "names are plain (C08 covers metacharacters)"]
 REQUIRED_MONITORS = ["upload_tree", "download_tree", "recursive_list", "remove_tree"]
